@@ -62,27 +62,17 @@ def actingObj (cfg : Cfg) (call : Call) (st : St) : Option Obj :=
   if call.reuse then st.obj else (construct cfg call st.disk).toOption
 
 /-- What a live converter object believes is consistent with the disk: `check_completed` is only ever set by
-`check_NP24`, which only runs with `post_check`; its reader points at the original's current data file unless its own
-`delete_NP24` has closed it and unlinked the file (NP2.4 only). -/
-def ObjOk (cfg : Cfg) (s : Disk) (ob : Obj) : Prop :=
+`check_NP24`, which only runs with `post_check`; an object built on the original points at the original's data file as
+long as there is one (and that file is readable), and was built on an existing file. -/
+def ObjOk (s : Disk) (ob : Obj) : Prop :=
   (ob.checkCompleted = true → ob.opts.postCheck = true) ∧
-  (ob.onShank = false → ob.srClosed = false → ob.srForm = s.orig) ∧
-  (ob.srClosed = true → cfg.kind = .np24 ∧ ob.onShank = false ∧ s.orig = .absent)
+  (ob.onShank = false → s.orig ≠ .absent → ob.srForm = s.orig ∧ origReadable s = true) ∧
+  (ob.onShank = false → ob.srForm ≠ .absent)
 
-def StOk (cfg : Cfg) (st : St) : Prop := ∀ ob, st.obj = some ob → ObjOk cfg st.disk ob
+def StOk (st : St) : Prop := ∀ ob, st.obj = some ob → ObjOk st.disk ob
 
 /-- `process` runs on an object built on the original (not on an already split shank file) of an NP2 probe. -/
 def OnOriginalNP2 (cfg : Cfg) (ob : Obj) : Prop :=
   ob.onShank = false ∧ (cfg.kind = .np24 ∨ cfg.kind = .np21)
-
-/-- The one class of steps excluded from the safety invariant (finding `same-object-rerun-after-delete`): `process(overwrite=True)`
-once more on the object whose `delete_NP24` has already removed the original. -/
-def Excluded (call : Call) (st : St) : Prop :=
-  call.reuse = true ∧ call.overwrite = true ∧ ¬ OrigHolds st.disk
-
-/-- No step of the history is `Excluded` in the state it is taken from. -/
-def Allowed (cfg : Cfg) : St → List Call → Prop
-  | _, [] => True
-  | st, c :: cs => ¬ Excluded c st ∧ Allowed cfg (run cfg c st).1 cs
 
 end IblVerif.Converter
